@@ -61,12 +61,17 @@ def main(ctx, replay=None):
     res = must_ok(run_tlc("CliEffects", "CliEffects.cfg", ctx.subdir("tlc"), workers=4, timeout=300))
     ctx.add_tlc(res)
     nb = 10 if ctx.tier == "quick" else 120
-    sim = must_ok(run_tlc("CliEffects", "CliEffects_sim.cfg", ctx.subdir("sim"), workers=1, simulate=f"num={nb * 2}", depth=5, seed=ctx.seed + 92, timeout=300))
+    sim = must_ok(run_tlc("CliEffects", "CliEffects_sim.cfg", ctx.subdir("sim"), workers=1, simulate=f"num={nb * 30}", depth=5, seed=ctx.seed + 92, timeout=300))
     beh = [(b[1], b[2], b[3]) for b in printed_values(sim.out, "FX")]
     beh = list({repr(b[0]): b for b in beh}.values())
     # every command must occur at least once in the sample
     beh.sort(key=lambda b: -len({c["name"] for c in b[0]}))
-    beh = beh[:nb]
+    chosen = []
+    for cmd in ("run", "run-static", "fill", "extract", "geotherm", "plot", "modes"):
+        hit = next((b for b in beh if b not in chosen and any(c["name"] == cmd for c in b[0])), None)
+        if hit is not None:
+            chosen.append(hit)
+    beh = chosen + [b for b in beh if b not in chosen][:max(0, nb - len(chosen))]
     if len(beh) < 5:
         raise MachineryError("too few behaviours from the CliEffects simulator")
     ctx.cov["rule"] = ("command sequences (3 commands) simulated by TLC, executed with the real click commands on a small synthetic data set in a "
